@@ -21,6 +21,12 @@ IOPS = {"add": "+", "mul": "*", "sub": "-", "and": "&", "xor": "^", "or": "|", "
 BOPS = {"add": "+", "sub": "-", "mul": "*", "and": "&", "or": "|", "xor": "^", "lt": "<", "eq": "=="}
 OMP6 = ["add", "mul", "sub", "and", "xor", "or"]
 
+# proposed repairs (proposed_fixes/C37-*.diff): after applying one, flip its default to "1"
+FX = {"ops": os.environ.get("C37_FX_OPS", "0"), "nest": os.environ.get("C37_FX_NEST", "0"),
+      "rhs": os.environ.get("C37_FX_RHS", "0")}
+FXBITS = FX["ops"] + FX["nest"] + FX["rhs"]
+FX_OF_TAG = {"nonomp": "ops", "nestedop": "nest", "readrhs": "rhs"}
+
 KNOWN = {  # generator tag -> known-finding class
     "nonomp": "inplace_operator_without_omp_reduction",
     "mixed": "assigned_and_inplace_variable_is_reduction",
@@ -498,7 +504,8 @@ for name, src in spec["srcs"]:
     res.append({"name": name, "ok": ok, "crash": crash, "err": err.getvalue()[-3000:]})
 print(json.dumps(res))
 '''
-ERR_KINDS = [("is inconsistent with previous reduction operator", "I"),
+ERR_KINDS = [("is not an OpenMP reduction operator", "U"),
+             ("is inconsistent with previous reduction operator", "I"),
              ("Cannot read reduction variable in loop body", "R"),
              ("Cannot assign to private of outer parallel block", "O"),
              ("Reductions not allowed for parallel blocks", "B")]
@@ -556,10 +563,13 @@ class Share:
     def __init__(self, ctx):
         self.ctx = ctx
         self.quick = ctx.tier == "quick"
-        self.fixed = fixed_programs()
+        fixed = fixed_programs()
+        # a repaired front end rejects the corresponding unsound forms
+        rejected = [p for p in fixed if FX.get(FX_OF_TAG.get(p.tag, ""), "0") == "1"]
+        self.fixed = [p for p in fixed if p not in rejected]
         nrnd = 6 if self.quick else 120
         self.rnd = random_programs(ctx.rng, nrnd)
-        self.errs = error_programs()
+        self.errs = error_programs() + rejected
         self.wd = os.path.join(ctx.workdir, "share")
         os.makedirs(self.wd, exist_ok=True)
         self.mods = []            # (module name, [progs])
@@ -611,7 +621,7 @@ class Share:
             ctx.corr_break("share:operator-string", "Nodes.py:ParallelRangeNode.generate_loop", m.group(1), mops)
         # (1) classification of every program by the model
         allp = [p for _, ps in self.mods for p in ps]
-        cres = model.batch(["classify %d %s" % (p.nvars, tok_region(p)) for p in allp + self.errs])
+        cres = model.batch(["classify %s %d %s" % (FXBITS, p.nvars, tok_region(p)) for p in allp + self.errs])
         cinfo = {}
         for p, line in zip(allp + self.errs, cres):
             mm = re.match(r"E=(\S+) C=(\S+) W=(\S+)$", line)
